@@ -29,6 +29,9 @@ enum Setter {
     Thread,
     /// like SelfSet, but the embedder keeps no handle on the flag: the run's own Env is its only owner
     SelfSetSole,
+    /// the flag is raised through the handle the embedder kept (not through the run's Env), and the Env was
+    /// built without writers: Env::new(None, None, Some(flag))
+    Embedder,
 }
 
 struct Probe {
@@ -46,6 +49,8 @@ struct Probe {
     stop_at: Cell<usize>,
     /// names wrapped so far (commands registered while the script runs are wrapped on the fly)
     wrapped: RefCell<std::collections::HashSet<String>>,
+    /// the handle on the halt flag that the embedder (Rig::run) kept for itself
+    outer_halt: RefCell<Option<Arc<AtomicBool>>>,
 }
 
 impl Probe {
@@ -76,6 +81,11 @@ impl Probe {
                     // hand control to the second thread: it stores the flag and acknowledges
                     self.to_setter.send(c.env.halt.clone()).expect("setter thread");
                     self.ack.recv().expect("setter ack");
+                }
+                Setter::Embedder => {
+                    if let Some(h) = self.outer_halt.borrow().as_ref() {
+                        h.store(true, Ordering::SeqCst);
+                    }
                 }
                 Setter::None => (),
             }
@@ -203,6 +213,7 @@ impl Rig {
             ack: ack_rx,
             stop_at: Cell::new(0),
             wrapped: RefCell::new(Default::default()),
+            outer_halt: RefCell::new(None),
         });
         let mut commands = sdk_context().commands;
         let tape: Rc<RefCell<Tape>> = Rc::new(RefCell::new(Tape::default()));
@@ -255,7 +266,11 @@ impl Rig {
         ctx.commands = self.commands.clone();
         ctx.variables.insert("i".into(), "0".into());
         let halt = Arc::new(AtomicBool::new(preset));
-        let env = if setter == Setter::SelfSetSole {
+        *p.outer_halt.borrow_mut() = if setter == Setter::Embedder { Some(halt.clone()) } else { None };
+        let env = if setter == Setter::Embedder {
+            // no custom writers (the scripts of this check print nothing): the flag is all the embedder passes
+            Env::new(None, None, Some(halt.clone()))
+        } else if setter == Setter::SelfSetSole {
             // the flag is handed over: nobody outside the run holds it
             Env::new(Some(Box::new(Buf::default())), Some(Box::new(Buf::default())), Some(halt))
         } else {
@@ -376,7 +391,7 @@ fn check_program_at(w: &mut Worker, rig: &Rig, name: &str, text: &str, tape: &[(
     let kmax = n.min(horizon);
     let ks: Vec<usize> = if only.is_empty() { (0..=kmax).collect() } else { only.iter().cloned().filter(|k| *k <= kmax).collect() };
     'outer: for k in ks {
-        for setter in [Setter::SelfSet, Setter::Thread, Setter::SelfSetSole] {
+        for setter in [Setter::SelfSet, Setter::Thread, Setter::SelfSetSole, Setter::Embedder] {
             if k == 0 && setter != Setter::SelfSet {
                 continue;
             }
@@ -584,6 +599,8 @@ pub fn replay(case: &Value) -> Result<String, String> {
         Setter::Thread
     } else if case["setter"] == "SelfSetSole" {
         Setter::SelfSetSole
+    } else if case["setter"] == "Embedder" {
+        Setter::Embedder
     } else {
         Setter::SelfSet
     };
